@@ -1,6 +1,7 @@
 #!/bin/bash
 # usage: confirm_seed.sh <PID> <k> <name>   confirms /tmp/mut/<PID>/patch<k>.diff + demo<k>.py in a scratch worktree and stores it under /verif/seeded/<PID>-<name>/
 PID=$1; K=$2; NAME=$3
+PROP=${PID%[a-z]}   # round suffix (C16c) is not part of the property id
 W=/tmp/cs/$PID-$K
 rm -rf $W; mkdir -p /tmp/cs
 git -C /repo worktree prune
@@ -18,11 +19,11 @@ cd /verif
 git -C /repo worktree remove --force $W
 echo "$PID-$K suite=[$SUITE] demo_with=$RC_WITH demo_without=$RC_WITHOUT"
 if [ $RC_WITH -ne 0 ] && [ $RC_WITHOUT -eq 0 ] && echo "$SUITE" | grep -q "298 passed"; then
-  D=/verif/seeded/$PID-$NAME; mkdir -p $D
+  D=/verif/seeded/$PROP-$NAME; mkdir -p $D
   cp /tmp/mut/$PID/patch$K.diff $D/patch.diff; cp /tmp/mut/$PID/demo$K.py $D/demo.py; cp /tmp/mut/$PID/notes$K.md $D/notes.md 2>/dev/null
   python3 - <<PY
 import json
-json.dump({"property":"$PID","origin":"independent sub-agent given only the property text and a scratch worktree",
+json.dump({"property":"$PROP","origin":"independent sub-agent given only the property text and a scratch worktree",
  "needs":open("/tmp/mut/$PID/notes$K.md").read()[:1500],
  "confirmed":{"suite_with_change":"$SUITE","demo_exit_with_change":$RC_WITH,"demo_exit_without_change":$RC_WITHOUT,
   "how":"tools/confirm_seed.sh: fresh worktree of /repo HEAD under /tmp/cs, git apply, build_ext --inplace, full pytest, demo; revert, rebuild, demo"},
